@@ -95,6 +95,7 @@ Proof.
     eapply IH; [exact HNc|exact Hk|exact Hin]. }
   assert (Hun : forall hc hc' r, unhandled key hc = (hc', ROk r) -> In l (snd r) -> False).
   { intros hc hc' r Hu Hin. apply ret_inv in Hu. destruct Hu as [_ ->]. exact Hin. }
+  destruct (is_dis n) eqn:Edis; [exfalso; eapply Hun; [exact H|exact Hl]|].
   destruct (nk n) eqn:K.
   - (* leaf *) apply ret_inv in H. destruct H as [_ Hr]. injection Hr as _ ->. destruct Hl as [<-|[]]. apply op_root.
   - (* pile *)
@@ -251,6 +252,7 @@ Proof.
   apply mbind_inv in H. destruct H as (h0 & n & Hrd & H). apply rd_inv in Hrd. destruct Hrd as [-> G].
   assert (Hun : forall hc hc' r, unhandled key hc = (hc', ROk r) -> r = (Some key, [])).
   { intros hc hc' r Hu. apply ret_inv in Hu. apply Hu. }
+  destruct (is_dis n) eqn:Edis; [apply Hun in H; congruence|].
   destruct (nk n) eqn:K.
   - (* leaf *) apply ret_inv in H. destruct H as [_ Hr]. injection Hr as -> ->.
     rewrite (Hnh id n (or_introl eq_refl) G). reflexivity.
@@ -419,8 +421,13 @@ End Render.
 Theorem rn_nopending f : forall id focus h h' l, NoPending h -> rn f id focus h = (h', ROk l) ->
   h' = h /\ forall x, In x l -> focus = true /\ OnPath h id x.
 Proof.
-  induction f as [|f IH]; intros id focus h h' l HN H; cbn [rn] in H; [exfalso; eapply raise_inv; exact H|].
+  induction f as [|f IH]; intros id focus0 h h' l HN H; cbn [rn] in H; [exfalso; eapply raise_inv; exact H|].
   apply mbind_inv in H. destruct H as (h0 & n & Hrd & H). apply rd_inv in Hrd. destruct Hrd as [-> G].
+  cbv zeta in H. remember (focus0 && negb (is_dis n)) as focus eqn:Efoc.
+  cut (h' = h /\ forall x, In x l -> focus = true /\ OnPath h id x).
+  { intros [E Hx]. split; [exact E|]. intros x Hin. destruct (Hx x Hin) as [Hf Hp]. split; [|exact Hp].
+    subst focus. apply andb_prop in Hf. apply Hf. }
+  clear Efoc.
   assert (Hlist : forall keep hh, is_list_kind_b (nk n) = true ->
             rn_list (rn f) keep (items n) 0 (nfocus n) focus hh = (h', ROk l) -> hh = h ->
             h' = h /\ forall x, In x l -> focus = true /\ OnPath h id x).
